@@ -267,7 +267,7 @@ func (rs *runState) add(r Result) {
 	rs.mu.Unlock()
 }
 
-var oxiaFrameRe = regexp.MustCompile(`(?m)^\s*(github\.com/oxia-db/oxia/[^\s(]+|verif/[^\s(]+)\(`)
+var oxiaFrameRe = regexp.MustCompile(`(?m)^\s+((?:github\.com/oxia-db/oxia|verif)/\S+?)\(\)\s*$`)
 
 // raceKey dedups a report by the outermost oxia frames of its two stacks.
 func raceKey(blk string) string {
